@@ -115,7 +115,7 @@ Proof.
   intros I [A [B [C D]]]. constructor.
   - eapply emoves_nodup; eauto. apply I.
   - intros t' e' Hin Ho. destruct (emoves_origin e _ _ A t' Hin) as [t [H1 [H2 [_ H3]]]].
-    rewrite <- H2. destruct H3 as [H3|[_ H3]]; [|congruence].
+    rewrite <- H2. destruct H3 as [H3|H3]; [|congruence].
     eapply inv_owner; eauto. congruence.
   - intros p t' Hp Hin. rewrite C in Hp.
     apply (emoves_ids e _ _ A) in Hin. apply in_map_iff in Hin. destruct Hin as [t [Et Ht]].
@@ -127,7 +127,7 @@ Proof.
   - intros x' t' Hx Ht Ho.
     destruct (lmoves_origin e _ _ B x' Hx) as [x [H1 [H2 [H3 [H4 _]]]]].
     destruct (emoves_origin e _ _ A t' Ht) as [t [T1 [T2 [_ T3]]]].
-    destruct T3 as [T3|[_ T3]]; [|congruence].
+    destruct T3 as [T3|T3]; [|congruence].
     rewrite <- T2. rewrite <- (bound_tids_shape x x') by assumption.
     eapply inv_bound; eauto. congruence.
 Qed.
@@ -168,7 +168,7 @@ Proof.
     constructor. constructor. }
   destruct (negb (N.eqb n1 0)); cbn [td_st].
   { apply good_mk; [exact M1|constructor|intros k []]. }
-  set (lastmsg := match groups with [] => torelease | _ => _ end).
+  set (lastmsg := flat_map (group_tasks e) groups).
   destruct (release e lastmsg r1) as [r2 n2] eqn:E2.
   assert (M2 : emoves e (s_roster s) r2).
   { replace r2 with (fst (release e lastmsg r1)) by (rewrite E2; reflexivity).
@@ -441,7 +441,7 @@ Qed.
 (* a request for [e], seen from everybody else: [new] are the tasks launched for [e] on the way *)
 Definition framed (e : N) (s s' : st) (u : out) : Prop :=
   exists new,
-    (forall t, In t new -> t_owner t = Some e /\ fst (t_id t) = e) /\
+    (forall t, In t new -> t_owner t = Some e /\ fst (t_id t) = e /\ t_idok t = true) /\
     NoDup (map t_id (s_roster s ++ new)) /\
     emoves e (s_roster s ++ new) (s_roster s') /\
     envs_kept e (s_envs s) (s_envs s') /\
@@ -455,7 +455,7 @@ Proof.
 Qed.
 
 Lemma framed_mid e s sm s' new u K :
-  (forall t, In t new -> t_owner t = Some e /\ fst (t_id t) = e) ->
+  (forall t, In t new -> t_owner t = Some e /\ fst (t_id t) = e /\ t_idok t = true) ->
   NoDup (map t_id (s_roster s ++ new)) ->
   emoves e (s_roster s ++ new) (s_roster sm) ->
   envs_kept e (s_envs s) (s_envs sm) ->
@@ -512,9 +512,10 @@ Proof.
   { intros x X1 X2 X3 t Ht. split.
     - unfold new in Ht. apply in_map_iff in Ht. destruct Ht as [ir [<- _]]. reflexivity.
     - rewrite (bound_tids_shape x x1) by (auto). rewrite <- Hids. apply in_map, Ht. }
-  assert (HnewO : forall t, In t new -> t_owner t = Some e /\ fst (t_id t) = e).
+  assert (HnewO : forall t, In t new -> t_owner t = Some e /\ fst (t_id t) = e /\ t_idok t = true).
   { intros t Ht. destruct (Hnew x1 eq_refl eq_refl eq_refl t Ht) as [H1 H2]. split; [exact H1|].
-    apply bound_tids_fst in H2. exact H2. }
+    apply bound_tids_fst in H2. split; [exact H2|].
+    unfold new in Ht. apply in_map_iff in Ht. destruct Ht as [ir [<- _]]. reflexivity. }
   assert (IL : forall x, e_id x = e -> e_roles x = e_roles x1 -> e_bound x = true ->
                inv (mkSt (s_envs s ++ [x]) (s_roster s ++ new) (remove_snap e (s_snaps s)))).
   { intros x X1 X2 X3. eapply inv_launch; eauto. }
@@ -610,6 +611,20 @@ Proof.
     + cbn [set_dead t_id t_owner] in *. eapply inv_bound; eauto.
 Qed.
 
+Lemma fail_inv ids s : inv s -> inv (with_roster s (fail_tasks ids (s_roster s))).
+Proof.
+  intro I. unfold with_roster. constructor; cbn [s_roster s_envs s_snaps]; try apply I.
+  - rewrite fail_ids. apply I.
+  - intros t' e Hin Ho. apply fail_spec in Hin. destruct Hin as [t [Ht [->| ->]]].
+    + eapply inv_owner; eauto.
+    + cbn [set_failed t_id t_owner] in *. eapply inv_owner; eauto.
+  - intros p t' Hp Hin. apply fail_spec in Hin. destruct Hin as [t [Ht [->| ->]]];
+      [|cbn [set_failed t_id]]; eapply inv_snap_r; eauto.
+  - intros x t' Hx Hin Ho. apply fail_spec in Hin. destruct Hin as [t [Ht [->| ->]]].
+    + eapply inv_bound; eauto.
+    + cbn [set_failed t_id t_owner] in *. eapply inv_bound; eauto.
+Qed.
+
 Lemma snap_spec e s s' u :
   inv s -> usedb s e = false -> snap e false s = (s', u) ->
   inv s' /\ o_cmds u = [] /\ o_kills u = snd (cleanup (s_roster s)) /\
@@ -635,7 +650,7 @@ Lemma step_spec s o s' u :
   inv s -> wf_op s o = true -> step s o = (s', u) ->
   inv s' /\ (is_request o = true -> frame_of o s s' u).
 Proof.
-  intros I W. destruct o as [e missing|e c|e c|e ev fail|e force allow keep tfail| |ids|t];
+  intros I W. destruct o as [e missing|e c|e c|e ev fail|e force allow keep tfail| |ids|t|fids];
     cbn [step wf_op is_request] in *; unfold frame_of; cbn [op_env].
   - (* OSnap *)
     apply negb_true_iff in W. destruct missing.
@@ -661,7 +676,7 @@ Proof.
     split; [exact I2|]. intros _.
     apply usedb_false in W. destruct W as [U1 [U2 U3]].
     assert (Hl : forall t, In t new -> is_locked t = true).
-    { intros t Ht. apply is_locked_true. exists e. apply Hn, Ht. }
+    { intros t Ht. destruct (Hn t Ht) as [A1 [A2 A3]]. eapply locked_intro; eauto. }
     assert (Ecl : cleanup (s_roster s ++ new) = (s_roster s1 ++ new, o_kills o1)).
     { rewrite cleanup_app_locked by exact Hl. rewrite Hr, Hk. reflexivity. }
     assert (M0 : emoves e (s_roster s ++ new) (s_roster s1 ++ new)).
@@ -700,6 +715,8 @@ Proof.
     split; [eapply good_inv; [exact I|apply (G 0)]|]. intros _ e. apply good_framed; auto.
   - (* ODies *)
     intro H; injection H as <- <-. split; [apply dies_inv, I|discriminate].
+  - (* OFail *)
+    intro H; injection H as <- <-. split; [apply fail_inv, I|discriminate].
 Qed.
 
 Lemma valid_run_inv ops : forall s, inv s -> valid_hist s ops = true -> inv (run s ops).
